@@ -10,14 +10,17 @@ CONSTANTS K
 Payload == [i \in 1..K |-> (i * 29 + 3) % 256]
 \* payload starts with a valid little-endian Elf64_Chdr so that SHF_COMPRESSED sections at offset 64 parse
 Chdr64 == <<1, 0, 0, 0, 0, 0, 0, 0, 100, 0, 0, 0, 0, 0, 0, 0, 8, 0, 0, 0, 0, 0, 0, 0>>
-FileBytes == BuildObj(64, TRUE, <<>>, <<>>, DefaultOpts) \o Chdr64 \o Payload
+\* ... followed by bytes that look like a legacy ".zdebug" blob ("ZLIB" + big-endian size): contents are contents,
+\* whatever they look like
+Magic == <<90, 76, 73, 66, 0, 0, 0, 0, 0, 0, 0, 32>>
+FileBytes == BuildObj(64, TRUE, <<>>, <<>>, DefaultOpts) \o Chdr64 \o Magic \o Payload
 L == Len(FileBytes)
 Big == { [i \in 1..8 |-> IF i = 4 THEN 128 ELSE 0],            \* 2^31
          [i \in 1..8 |-> IF i <= 4 THEN 255 ELSE 0],           \* 2^32-1
          [i \in 1..8 |-> IF i = 8 THEN 128 ELSE 0],            \* 2^63
          [i \in 1..8 |-> 255] }                                \* 2^64-1
-Offs == {W8(0), W8(1), W8(64), W8(65), W8(L - 1), W8(L), W8(L + 1)} \cup Big
-Sizes == {W8(0), W8(1), W8(23), W8(24), W8(25), W8(L - 64), W8(L - 63), W8(L)} \cup Big
+Offs == {W8(0), W8(1), W8(64), W8(65), W8(88), W8(L - 1), W8(L), W8(L + 1)} \cup Big
+Sizes == {W8(0), W8(1), W8(12), W8(23), W8(24), W8(25), W8(L - 88), W8(L - 64), W8(L - 63), W8(L)} \cup Big
 
 VARIABLE c
 \* the case is chosen by Next (not Init) so that TLC's worker threads, which have the large stack, evaluate it
